@@ -45,12 +45,18 @@ def jobs(tier):
                     layout = "flat" if (shape == "single" or pre in ("correct", "shorter")) else "two"
                     out.append(("v%d.%s.%s.pre-%s.decoy-%s" % (version, shape, layout, pre, decoy), "job",
                                 dict(version=version, shape=shape, P=16384, K=2, layout=layout, decoy=decoy, pre=pre)))
+    for version in (1, 2, 3):
+        for damage in (("flip", "missing") if version == 1 else ("missing",)):
+            for decoy in ("before", "after"):
+                out.append(("v%d.flat2.flat.pre-empty.decoy-%s.last-file-%s" % (version, decoy, damage), "job",
+                            dict(version=version, shape="flat2", P=16384, K=2, layout="flat", decoy=decoy, pre="empty", damage=damage)))
     return out
 
 
-def job(E, version, shape, P, K, layout, decoy, pre, _mutants=None):
-    fs, sizes, meta, expected = rw.build_world(E, version, shape, P, K, layout, decoy, order="symbolic" if decoy != "none" else "reversed",
-                                               lo=1 if shape == "single" else 0)
+def job(E, version, shape, P, K, layout, decoy, pre, damage=None, _mutants=None):
+    order = "reversed" if decoy == "none" else ("sorted" if damage else "symbolic")
+    fs, sizes, meta, expected = rw.build_world(E, version, shape, P, K, layout, decoy, order=order,
+                                               lo=1 if shape == "single" else 0, damage=damage)
     rels = SHAPES[shape]
     first = [d for d, (r, c) in expected.items() if r == rels[0]][0]
     r0 = rels[0]
@@ -89,6 +95,11 @@ def job(E, version, shape, P, K, layout, decoy, pre, _mutants=None):
         E.witnesses.setdefault(k, True)
 
 
+def _is_decoy(content):
+    c = content.canon()
+    return bool(c) and all(isinstance(seg[1], tuple) and seg[1] and seg[1][0] in ("decoy", "predecoy") for seg in c if seg[0] == "F")
+
+
 def judge(E, fs, snap, sizes, expected, protected, layout, shape, tag):
     roots = rw.SEARCH[layout] + ["/t"]
 
@@ -120,11 +131,17 @@ def judge(E, fs, snap, sizes, expected, protected, layout, shape, tag):
                 E.check(snap[0][src].size() == sizes[rel] if src in snap[0] else False, tag + ".copy-size-matches", "%r" % (entry,))
         else:
             E.fail(tag + ".only-copies", "unexpected mutating operation %r" % (entry,))
-    # 4. nothing placed is a decoy: every file present at an assigned path that was not there before holds the real bytes
+    # 4. nothing placed is a decoy / a patchwork: every file at an assigned path that was created or changed holds
+    #    a byte-identical copy of a search-directory file with the recorded name and length
+    sources = [c for p, c in snap[0].items() if under(p, rw.SEARCH[layout])]
     for d, (rel, content) in expected.items():
         node = fs.files.get(d)
-        if node is not None and d not in snap[0] and tb(sizes[rel] > 0):
-            E.check(node.content == content, tag + ".placed-file-verifies", "%s holds bytes that do not verify against the metafile" % d)
+        if node is None or not tb(sizes[rel] > 0):
+            continue
+        if d not in snap[0] or not (node.content == snap[0][d]):
+            E.check(any(node.content == c for c in sources), tag + ".written-file-is-identical-copy",
+                    "%s is not a byte-identical copy of any search-directory file" % d)
+            E.check(not _is_decoy(node.content), tag + ".placed-file-verifies", "%s holds a file none of whose bytes verify against the metafile" % d)
 
 
 def replay(params, model, notes, workdir, seed):
@@ -188,11 +205,16 @@ def replay(params, model, notes, workdir, seed):
     for k, v in before.items():
         if k.startswith("dest") and ("/" + k) not in expected and mid.get(k) != v:
             bad.append("C14.unrelated-destination-untouched:%s" % k)
+    srcs = [v[1] for k, v in before.items() if not k.startswith("dest") and not k.startswith("t") and v[0] == "f"]
     for k, v in mid.items():
-        if k.startswith("dest") and v[0] == "f" and k not in before:
+        if k.startswith("dest") and v[0] == "f" and (k not in before or before[k] != v):
             if ("/" + k) not in expected:
                 bad.append("C14.copy-to-assigned-path:%s" % k)
-            elif v[1] != expected["/" + k] and expected["/" + k]:
+            elif expected["/" + k] and v[1] not in srcs:
+                bad.append("C14.written-file-is-identical-copy:%s" % k)
+            elif expected["/" + k] and v[1] != expected["/" + k] and params.get("damage") is None:
+                bad.append("C14.placed-file-verifies:%s" % k)
+            elif expected["/" + k] and v[1] == refconc.content(("decoy", 0), len(v[1]), seed):
                 bad.append("C14.placed-file-verifies:%s" % k)
     return bad
 
